@@ -355,6 +355,10 @@ def gen_program(rng, max_ops=10):
         prog["merged"].insert(rng.randrange(len(prog["merged"]) + 1), extra)
     if rng.random() < 0.5:
         prog["default"] = [rng.choice(["defaultFaces", "rest"]), rng.choice(KINDS)]
+        if rng.random() < 0.3:
+            # the default patch bears the name of a patch that also has sides of its own (and is modified below)
+            prog["default"][0] = rng.choice(PATCHES)
+            prog["modify_post"].append([prog["default"][0], rng.choice(KINDS), rng.sample(SETTINGS, rng.randint(1, 2))])
     for lst in ("modify_pre", "modify_post"):
         for _ in range(rng.choice([0, 0, 1, 2])):
             prog[lst].append([rng.choice(PATCHES + ["unused_p"]), rng.choice(KINDS),
